@@ -1076,6 +1076,110 @@ theorem C18_snapshot_roundtrip (ls : List Captured) (lights : List Light) (D : D
     (ordered_mem hnd hc)
 
 
+/-! ## 4. the AST is the text
+
+`pretty` writes the statement forms the capture uses the way `ScriptSnapshot` writes them; the
+script text of a capture is the pretty-printed AST (plus the comment line for an empty
+population, which is not a statement). -/
+
+def regWord : Reg → String
+  | .hue => "hue" | .saturation => "saturation" | .brightness => "brightness"
+  | .kelvin => "kelvin" | _ => "?"
+
+mutual
+  def pretty : Stmt → String
+    | .units .raw => "units raw\n"
+    | .setReg r (.lit (.int v)) => regWord r ++ " " ++ toString v ++ " "
+    | .action .on (.cons (.light (.str n)) .nil) => "on " ++ quoted n ++ "\n"
+    | .action .off (.cons (.light (.str n)) .nil) => "off " ++ quoted n ++ "\n"
+    | .action .set (.cons (.light (.str n)) .nil) => "set " ++ quoted n ++ "\n"
+    | .action .set (.cons (.zone (.str n) ⟨.lit (.int i), none⟩) .nil) =>
+      "set " ++ quoted n ++ " zone " ++ toString i ++ "\n"
+    | .action .set (.cons (.matrixBlock (.str n) body) .nil) =>
+      "set " ++ quoted n ++ " begin\n" ++ prettyBlock body ++ "end\n"
+    | .stage (some ⟨.lit (.int r), none⟩) (some ⟨.lit (.int c), none⟩) false =>
+      "stage row " ++ toString r ++ " column " ++ toString c ++ "\n"
+    | _ => ""
+  def prettyBlock : Block → String
+    | .nil => ""
+    | .cons s rest => pretty s ++ prettyBlock rest
+end
+
+theorem prettyBlock_append (xs ys : List Stmt) :
+    prettyBlock (Block.ofList (xs ++ ys)) =
+      prettyBlock (Block.ofList xs) ++ prettyBlock (Block.ofList ys) := by
+  induction xs with
+  | nil => simp [Block.ofList, prettyBlock, String.empty_append]
+  | cons x rest ih => simp [Block.ofList, prettyBlock, ih, String.append_assoc]
+
+theorem prettyBlock_flatten {α : Type} (f : α → List Stmt) (L : List α) :
+    prettyBlock (Block.ofList (L.map f).flatten) =
+      String.join (L.map fun x => prettyBlock (Block.ofList (f x))) := by
+  induction L with
+  | nil => simp [Block.ofList, prettyBlock]
+  | cons x rest ih =>
+    simp only [List.map_cons, List.flatten_cons, prettyBlock_append, ih, String.join_cons]
+
+theorem pretty_settings (c : List Int) :
+    prettyBlock (Block.ofList (settingsAst c)) = settingsText c := by
+  have key : ∀ (rs : List Reg) (c : List Int),
+      prettyBlock (Block.ofList ((rs.zip c).map fun (rv : Reg × Int) => Stmt.setReg rv.1 (Snapshot.lit rv.2))) =
+        String.join (((rs.map regWord).zip c).map fun (wv : String × Int) =>
+          wv.1 ++ " " ++ toString wv.2 ++ " ") := by
+    intro rs
+    induction rs with
+    | nil => intro c; simp [Block.ofList, prettyBlock]
+    | cons r rest ih =>
+      intro c
+      cases c with
+      | nil => simp [Block.ofList, prettyBlock]
+      | cons v c =>
+        simp only [List.zip_cons_cons, List.map_cons, Block.ofList, prettyBlock, String.join_cons]
+        rw [ih c]
+        simp only [Snapshot.lit, pretty]
+  exact key [Reg.hue, .saturation, .brightness, .kelvin] c
+
+theorem pretty_zone_item (n : String) (z : List Int) (i : Nat) :
+    prettyBlock (Block.ofList (settingsAst z ++
+      [Stmt.action .set (.cons (.zone (.str n) ⟨Snapshot.lit i, none⟩) .nil)])) =
+    settingsText z ++ "set " ++ quoted n ++ " zone " ++ toString i ++ "\n" := by
+  simp only [prettyBlock_append, pretty_settings, Block.ofList, prettyBlock, pretty, Snapshot.lit,
+    String.append_assoc, String.append_empty]
+  rfl
+
+theorem pretty_cell_item (w : Nat) (c : List Int) (k : Nat) :
+    prettyBlock (Block.ofList (settingsAst c ++
+      [Stmt.stage (some ⟨Snapshot.lit (k / w : Nat), none⟩) (some ⟨Snapshot.lit (k % w : Nat), none⟩)
+        false])) =
+    settingsText c ++ "stage row " ++ toString (k / w) ++ " column " ++ toString (k % w) ++ "\n" := by
+  simp only [prettyBlock_append, pretty_settings, Block.ofList, prettyBlock, pretty, Snapshot.lit,
+    String.append_assoc, String.append_empty]
+  rfl
+
+theorem pretty_light (c : Captured) : prettyBlock (Block.ofList (lightAst c)) = lightText c := by
+  cases c with
+  | plain n col p =>
+    simp only [lightAst, lightText, prettyBlock_append, pretty_settings]
+    cases hp : (p != 0) <;>
+      simp only [Block.ofList, prettyBlock, pretty, String.append_assoc, String.append_empty,
+        Bool.false_eq_true, if_false, if_true]
+  | multizone n zones =>
+    simp only [lightAst, lightText, prettyBlock_flatten, pretty_zone_item]
+  | matrix n h w cells =>
+    simp only [lightAst, lightText, Block.ofList, prettyBlock, pretty, prettyBlock_flatten,
+      String.append_empty, pretty_cell_item]
+
+/-- **C18_ast_is_text.**  The text the capture writes is the AST the theorems above run,
+pretty-printed statement by statement — byte for byte; an empty population adds one comment
+line, which is not a statement. -/
+theorem C18_ast_is_text (ls : List Captured) :
+    prettyBlock (scriptAst ls) ++ (if ls.isEmpty then "# No lights found.\n" else "") =
+      scriptText ls := by
+  have : scriptAst ls = Block.ofList ([Stmt.units .raw] ++ ((ordered ls).map lightAst).flatten) := rfl
+  rw [this, prettyBlock_append, prettyBlock_flatten]
+  simp only [scriptText, Block.ofList, prettyBlock, pretty, String.append_empty, pretty_light]
+
+
 /-! ## the hypotheses are satisfiable
 
 A population with one light of each kind, captured in one state and replayed against devices
@@ -1142,6 +1246,15 @@ example : (Sem.run 200 (scriptAst captured) lights).1 = .normal ∧
   have h := C18_snapshot_roundtrip captured lights before (by decide) captured_valid captured_known
     before_shape 200 (by decide)
   exact ⟨h.1, h.2.2⟩
+
+/-- the text, for a small population (lights in name order, names with spaces) -/
+example : scriptText [.plain "lamp" [1, 2, 3, 4] 65535, .multizone "a strip" [[5, 6, 7, 8]]] =
+    "units raw\nhue 5 saturation 6 brightness 7 kelvin 8 set \"a strip\" zone 0\nhue 1 saturation 2 brightness 3 kelvin 4 on \"lamp\"\nset \"lamp\"\n" := by
+  decide +kernel
+
+example : prettyBlock (scriptAst captured) = scriptText captured := by
+  have := C18_ast_is_text captured
+  simpa [captured, String.append_empty] using this
 
 end Example
 
